@@ -138,8 +138,19 @@ impl Instant {
             return Err(TemporalError::range().with_message("Increment exceeded a valid range."));
         };
 
-        let rounded = IncrementRounder::<i128>::from_signed_num(self.as_i128(), increment)?
-            .round(resolved_options.rounding_mode);
+        // RoundNumberToIncrementAsIfPositive: an instant before the epoch rounds in the same
+        // direction as one after it (trunc = floor). Round the distance from an even multiple
+        // of the increment at or below the value, which is non-negative and keeps the parity
+        // of the quotient for half-even.
+        let ns = self.as_i128();
+        let inc = i128::try_from(increment.get()).map_err(|_| {
+            TemporalError::range().with_message("Increment exceeded a valid range.")
+        })?;
+        let quotient = ns.div_euclid(inc);
+        let base = (quotient - quotient.rem_euclid(2)) * inc;
+        let rounded = base
+            + IncrementRounder::<i128>::from_signed_num(ns - base, increment)?
+                .round(resolved_options.rounding_mode);
 
         Ok(rounded)
     }
